@@ -228,6 +228,7 @@ func (f *Frame) edgeTo(from, to *ssa.BasicBlock, cond string) {
 		f.backEdge(li, from, c)
 		return
 	}
+	f.exitEdge(from, to, c)
 	// two edges to the same block (if with identical successors)
 	key := [2]*ssa.BasicBlock{from, to}
 	if old, ok := f.edge[key]; ok {
